@@ -648,7 +648,34 @@ CORRS.append(
                   "parser/serializer/context instances vs fresh instances, call by call; expected: equal outside the listed findings")
 )
 
+# ---------------------------------------------------------------- parser instances in rarely used corners
+from props import c14corners as K  # noqa: E402
+
+
+def impl_parser_history(a):
+    msg = K.check_history(a)
+    return {"ok": "same-as-fresh"} if msg is None else {"err": msg}
+
+
+CORRS.append(
+    Corr("c14.parser_history", K.gen_history, impl_parser_history, spec=lambda a: {"ok": "same-as-fresh"},
+         nontrivial=lambda a, o: len(a["calls"]) >= 2,
+         classify=lambda a, o: a["calls"][0]["kind"] + ("|non-default-options" if a["cfg"] else "|default-options"),
+         describe="spec-level: histories of parses (union / base-class / compound / token fields, failing documents, "
+                  "unconvertible values) through ONE XmlParser (native, lxml) / JsonParser / DictDecoder holding ONE "
+                  "ParserConfig with options away from the defaults, vs fresh instances, results and warnings call by call")
+)
+
+CORRS.append(
+    Corr("cfg.run", K.gen_cfg_run, K.impl_cfg_run, nontrivial=lambda a, o: len(a["docs"]) >= 2,
+         classify=lambda a, o: a["kind"] + ("|strict" if a["strict"] else "|lenient"),
+         describe="histories of XML parses (convertible / unconvertible values, union nodes whose candidates bind or fail) "
+                  "through ONE XmlParser: ok / warned / error per call and fail_on_converter_warnings of the instance's "
+                  "ParserConfig afterwards vs the options model (Ctx/ParserCfg.lean: candidates run on a local strict copy)")
+)
+
 ORACLES = [
+    Oracle("parser-history", K.gen_history, K.check_history),
     Oracle("ctx-history", gen_ctx_history, check_ctx_history, covered_ctx_history, from_ops=("ctx.run",)),
     Oracle("doc-history", gen_doc_history, check_doc_history, covered_doc_history),
     Oracle("memo-history", gen_memo, check_memo, from_ops=("memo.run",)),
